@@ -958,4 +958,19 @@ def shear_sign(repo: Repo) -> RuleRun:
 shear_sign.rule_id = "C11.SHEAR-SIGN"
 
 
-RULES = [quad_map_rule, chop_coverage, chop_role, radial_convention, arc_rings, chain_source, mirror_pairing, trig_domain, fill_conformal, arc_side, affine_kinds, stack_chain, no_shared_parts, moved_once, transform_routing, axis_terms, mirror_matrix, arguments_untouched, arc_midpoint, scalar_amount, joint_cusps, no_exact_coordinates, grid_roles, collapsed_edge, circle_test_symmetric, shear_sign]
+def coplanar_scale_free(repo: Repo) -> RuleRun:
+    """'for every valid placement and size': the ring sketches build their faces with the coplanarity check on; a check that compares a
+    volume with the plain tolerance refuses a large ring in a general orientation for rounding noise. Same rule as
+    C20.COPLANAR-SCALE-FREE."""
+    from ..dims import perpendicular_guards_rule
+
+    return perpendicular_guards_rule(
+        repo, PROP, "C11.COPLANAR-SCALE-FREE", floor=1, words=("coplanar",),
+        example="and ExtrudedRing([0,0,0], a*r, b*r, 0.5*r) with a = (1,2,3)/sqrt(14), r = 1e4 refused",
+    )
+
+
+coplanar_scale_free.rule_id = "C11.COPLANAR-SCALE-FREE"
+
+
+RULES = [quad_map_rule, chop_coverage, chop_role, radial_convention, arc_rings, chain_source, mirror_pairing, trig_domain, fill_conformal, arc_side, affine_kinds, stack_chain, no_shared_parts, moved_once, transform_routing, axis_terms, mirror_matrix, arguments_untouched, arc_midpoint, scalar_amount, joint_cusps, no_exact_coordinates, grid_roles, collapsed_edge, circle_test_symmetric, shear_sign, coplanar_scale_free]
